@@ -241,7 +241,28 @@ Definition chk (b : bool) : bool := b.
     fcases.append({'names': names, 'ws': [rng.randint(2, 9) for _ in names], 'order': [rng.choice(names) for _ in range(rng.randint(2, 4))], 'n': rng.randint(1, 3),
                    'form': rng.choice(['vmap', 'scan'])})
   icases = [{'marker': m, 'form': f, 'n': rng.randint(1, 4), 'ncalls': 2} for m, f in _it.product(['plain', 'in', 'out'], ['vmap', 'scan'])]
-  xr = common.run_impl_parallel('impl_c06_extra.py', [{'fields': fcases[i::4], 'inout': icases[i::4]} for i in range(4)], workers=4, timeout=1500)
+  NAMES = ['params', 'stats', 'cache', 'trace', 'aux']
+  scases = []
+  for _ in range(200 if thorough else 40):
+    ks = rng.sample(NAMES, rng.randint(1, 5))
+    scases.append({'entries': [[k, rng.choice(['both', 'both', 'in', 'out']), rng.randint(0, 2)] for k in ks]})
+  xr = common.run_impl_parallel('impl_c06_extra.py', [{'fields': fcases[i::4], 'inout': icases[i::4], 'split_io': scases[i::4]} for i in range(4)], workers=4, timeout=1500)
+  srows = []
+  for k, r in enumerate(xr):
+    for c, o in zip(scases[k::4], r['split_io']):
+      chk.count({'split_in_out': c}, any(e[1] != 'both' for e in c['entries']))
+      if 'err' in o:
+        chk.violation('oracle', 'lift._split_in_out_axes raised %s' % o['err'], {'case': c})
+        continue
+      ent = clist(['(FName %s, %s %s)' % (cN(NAMES.index(e[0]) + 1), {'both': 'AxBoth', 'in': 'AxIn', 'out': 'AxOut'}[e[1]], common.cZ(e[2])) for e in c['entries']])
+      pairs = lambda l: clist(['(FName %s, %s)' % (cN(NAMES.index(kk) + 1), common.cZ(v)) for kk, v in l])
+      srows.append((c, o, '(let io := split_in_out %s in list_beq fz_beq (fst io) %s && list_beq fz_beq (snd io) %s)' % (ent, pairs(o['ok']['in']), pairs(o['ok']['out']))))
+  sbad = common.coq_mismatches('c06_split_io', 'From Flaxm Require Import Lib.Harness Model.Filters Model.Linen Model.Lift.\nOpen Scope Z_scope.\n'
+                               'Definition fz_beq (a b : filt * Z) : bool := match fst a, fst b with FName x, FName y => N.eqb x y && Z.eqb (snd a) (snd b) | _, _ => false end.\n'
+                               'Definition chk (b : bool) : bool := b.\n', [x[2] for x in srows], 'chk', shard=200)
+  for i in sbad[:6]:
+    chk.violation('correspondence', 'Model/Lift.v split_in_out and flax.core.lift._split_in_out_axes disagree on the ordered in / out filter lists of a variable_axes mapping with In / Out markers '
+                  '(C06_out_only_not_sliced_in, C06_in_only_not_written_back, C06_unmarked_axis_is_in_and_out no longer transfer)', {'case': srows[i][0], 'observed': srows[i][1]})
   for k, r in enumerate(xr):
     for c, o in zip(fcases[k::4], r['fields']):
       chk.count({'field_modules': c}, c['names'] != sorted(c['names']))
